@@ -422,6 +422,108 @@ def annotation(ctx, case):
     ctx.check('the id is usable again afterwards: next incarnation letter', ('wl_callback@3' + chr(ord(letter) + 1)) in msg_lines[-1])
 
 
+def log_histories(ctx, case):
+    """every well-formed history of <= n log lines over ids 2, 3 and a server-range id (create as registry / callback, mention, delete_id, re-use),
+    untagged (stock libwayland) or tagged, through the real decoder, line loop, connection manager and display: labels, incarnation letters,
+    destruction annotations, lifespans and the final alive flags against a reference table; the connection stays ONE connection"""
+    import re
+    from core import wl, matcher, util
+    from core.connection_manager import ConnectionManager
+    from core.output import Output
+    from frontends.tui.controller import Controller
+    from backends.libwayland_debug_output import parse
+    from core.letter_id_generator import number_to_letter_id
+    from lib.stubs import RecStream
+    n, tagged = case
+    _setup()
+    util.color_output = False
+    wl.Message.base_time = None
+    S = SERVER_BASE
+    ref = {}        # id -> list of [type, t_create, alive]
+    lines, expect = [], []
+    tag = ' <7>' if tagged else ''
+    t = 1000000
+    for step_i in range(n):
+        ops = []
+        for i in (2, 3):
+            cur = ref.get(i)
+            if cur and cur[-1][2]:
+                ops += [('delete', i), ('mention', i)]
+            else:
+                ops.append(('create', i, 'wl_callback'))
+                if i == 2:
+                    ops.append(('create', i, 'wl_registry'))
+        ops.append(('create', S, 'wl_offer'))
+        if ref.get(S):
+            ops.append(('mention', S))
+        op = ctx.choose(ops, 'op%d' % step_i)
+        t += 250000
+        stamp = '%d.%03d' % (t // 1000, t % 1000)
+        if op[0] == 'create':
+            i, ty = op[1], op[2]
+            lst = ref.setdefault(i, [])
+            if lst and lst[-1][2]:
+                lst[-1][2] = False      # server-range id handed out again: the previous holder is gone
+            lst.append([ty, t, True])
+            lab = '%s@%d%s' % (ty, i, number_to_letter_id(len(lst) - 1, False))
+            if i == S:
+                lines.append('[%s]%s wl_display@1.offer(new id wl_offer@%d)' % (stamp, tag, S))
+            elif ty == 'wl_registry':
+                lines.append('[%s]%s  -> wl_display@1.get_registry(new id wl_registry@%d)' % (stamp, tag, i))
+            else:
+                lines.append('[%s]%s  -> wl_display@1.sync(new id wl_callback@%d)' % (stamp, tag, i))
+            expect.append(('create', lab, None))
+        elif op[0] == 'mention':
+            i = op[1]
+            lst = ref[i]
+            ty = lst[-1][0]
+            lab = '%s@%d%s' % (ty, i, number_to_letter_id(len(lst) - 1, False))
+            lines.append('[%s]%s %s@%d.poke(%s@%d)' % (stamp, tag, ty, i, ty, i))
+            expect.append(('mention', lab, None))
+        else:
+            i = op[1]
+            lst = ref[i]
+            lst[-1][2] = False
+            lab = '%s@%d%s' % (lst[-1][0], i, number_to_letter_id(len(lst) - 1, False))
+            lines.append('[%s]%s wl_display@1.delete_id(%d)' % (stamp, tag, i))
+            expect.append(('delete', lab, '%0.4f' % ((t - lst[-1][1]) / 1e6)))
+
+    class F:
+        i = 0
+        def readline(self):
+            F.i += 1
+            return lines[F.i - 1] + chr(10) if F.i <= len(lines) else ''
+    out, err = RecStream(), RecStream()
+    output = Output(False, True, out, err)
+    mgr = ConnectionManager()
+    Controller(output, mgr, matcher.always, matcher.never)
+    parse.into_sink(F(), output, mgr)
+    ctx.check('no error output', err.items == [])
+    ctx.check('the lines of one connection id stay ONE connection, announced once and closed once at the end',
+              len(mgr.connections()) == 1 and len([x for x in out.items if x.startswith('New ')]) == 1 and len([x for x in out.items if x.startswith('Closed ')]) == 1
+              and out.items[-1].startswith('Closed '))
+    shown = [x for x in out.items if re.match(r'^\s*-?\d+\.\d{4} ', x)]
+    ctx.check('one output line per message', len(shown) == len(lines))
+    if len(shown) != len(lines) or len(mgr.connections()) != 1:
+        return
+    for k, ((kind, lab, life), text) in enumerate(zip(expect, shown)):
+        if kind == 'delete':
+            m = re.search(r' -- (\S+)\.destroyed after (\d+\.\d{4})s', text)
+            ctx.check('line %d (delete_id): annotated with exactly the incarnation it destroyed (%s) and its lifespan (%s)' % (k, lab, life),
+                      m is not None and m.group(1) == lab and m.group(2) == life)
+        else:
+            ctx.check('line %d (%s): no destruction annotation' % (k, kind), ' -- ' not in text and 'destroyed' not in text)
+            ctx.check('line %d (%s): names %s (latest incarnation of its id, letters in creation order)' % (k, kind, lab),
+                      text.count(lab + ')') + text.count(lab + '.') == (2 if kind == 'mention' else 1))
+    conn = mgr.connections()[0]
+    for i, lst in ref.items():
+        got = conn.db.get(i) or []
+        ctx.check('table of id %d: one object per creation, in order' % i, len(got) == len(lst))
+        if len(got) == len(lst):
+            ctx.check('alive flags of id %d: exactly the last incarnation if not deleted; never resurrected' % i, [o.alive for o in got] == [x[2] for x in lst])
+    ctx.check('message count', len(conn.messages()) == len(lines))
+
+
 def twin(ctx, case):
     step(ctx, case)
     ctx.check('reachability twin (must be violated)', False)
@@ -473,6 +575,10 @@ def make_obligations(pid, tier):
                  FUNCS, 'id symbolic in the client resp. server range; 27, 28, 53 and 703 creations', long_reuse, cases=[(27, False), (28, True), (53, True), (703, False)] if tier == 'quick' else [(27, False), (27, True), (28, True), (28, False), (53, True), (703, False), (704, True)])] if pid == 'C02' else []
     extra += [Ob('creation-on-undescribed-message', 'symx', 'with the shipped descriptions loaded, a new id on a message / at a position the description of a known interface lacks still creates its object', FUNCS + ['core.wl.protocol:get_arg'],
                  '3 message shapes x 2 directions, through the real decoder', undescribed, cases=[None])] if pid == 'C02' else []
+    extra += [Ob('log-histories', 'symx', 'well-formed histories of log lines (ids 2, 3 and a server-range id; create as registry/callback, mention, delete_id, re-use) through the real decoder, line loop, manager and display vs a reference table',
+                 FUNCS + ['backends.libwayland_debug_output.parse:into_sink', 'core.connection_manager:ConnectionManager.message', 'core.wl.message:Message.__str__'],
+                 'all well-formed histories of <= %d lines (exhaustive over the choices), untagged and tagged' % (6 if tier == 'quick' else 8), log_histories,
+                 cases=[(k, tg) for k in ((3, 5, 6) if tier == 'quick' else (3, 5, 6, 7, 8)) for tg in (False, True)])]
     obs = [Ob('object-table-step', 'symx', 'Inv /\\ one ConnectionImpl.message step => spec /\\ Inv (histories of any length by induction)',
               FUNCS, bounds, step, cases=cases, stubs=STUBS, outside=outside, budget_s=1500 if tier == 'quick' else 6000),
            Ob('object-table-step-reachable', 'symx', 'reachability twin of the step obligation', FUNCS, bounds, twin,
